@@ -1042,6 +1042,10 @@ int ov_halfrate(OggVorbis_File *vf,int flag){
     if(vf->pcm_offset>=0){
       pos=vf->pcm_offset;
       vf->pcm_offset=-1; /* make sure the pos is dumped if unseekable */
+
+      /* after the last half-rate sample of an odd-length stream the
+         position is total+1, which the seek below would refuse */
+      if(vf->seekable && pos>ov_pcm_total(vf,-1))pos=ov_pcm_total(vf,-1);
     }
   }
 
